@@ -3,6 +3,7 @@ package main
 import (
 	"go/token"
 	"go/types"
+	"sort"
 	"strings"
 
 	"golang.org/x/tools/go/ssa"
@@ -12,9 +13,9 @@ import (
 
 func init() {
 	register(&Property{
-		ID:      "C14",
-		NeedSSA: true,
-		Decided: "Structural necessary conditions: (errflow) in every function of the library's import closure, the error result of every call that can carry a failure of the I/O medium (io/bufio/os interface methods and functions, and module functions that transitively contain such calls) is used: it is not discarded, not bound to `_`, not merely compared and then forgotten, and not overwritten on a loop path before being looked at; the accepted exceptions are frozen with one reason each; (close) (*writer).close performs header, flush, deferred bloom filters, footer and buffer flush in that order and returns the result of the last; (short) writePageTo compares the bytes written with the expected size and reports io.ErrShortWrite; the offset-tracking sink wrapper returns its callee's (n, err) unchanged and adds n to the offset on every path; (readat) the ReadAt helper clears an error only when the buffer was filled.",
+		ID:         "C14",
+		NeedSSA:    true,
+		Decided:    "Structural necessary conditions: (errflow) in every function of the library's import closure, the error result of every call that can carry a failure of the I/O medium (io/bufio/os interface methods and functions, and module functions that transitively contain such calls) is used: it is not discarded, not bound to `_`, not merely compared and then forgotten, and not overwritten on a loop path before being looked at; the accepted exceptions are frozen with one reason each; (close) (*writer).close performs header, flush, deferred bloom filters, footer and buffer flush in that order and returns the result of the last; (short) writePageTo compares the bytes written with the expected size and reports io.ErrShortWrite; the offset-tracking sink wrapper returns its callee's (n, err) unchanged and adds n to the offset on every path; (readat) the ReadAt helper clears an error only when the buffer was filled.",
 		NotDecided: "that each byte offset is actually reached; behaviour of foreign io.Writer/io.ReaderAt implementations; whether an error value that is used is also acted upon correctly (a condition inverted, a wrong variable of the same type returned from a used value).",
 		Assumptions: []string{
 			"an SSA error value with no referrers is a dropped error; go/ssa removes dead stores, so an assignment that is overwritten before any read also has no referrers",
@@ -65,6 +66,7 @@ var c14Exceptions = []errException{
 }
 
 func runC14(c *Ctx) {
+	c14ChunkEOF(c)
 	p := c.P
 	io := NewIOErrs(p)
 	inScope := rootImportClosure(p)
@@ -361,4 +363,67 @@ func c14ReadAt(c *Ctx) {
 	c.Check(rule, "readAt clears the error only when the buffer was filled", fn.Pos(), ok, "readAt can return a nil error although fewer than len(p) bytes were read: a short read of the source would be taken for data")
 	c.Min(rule, 1)
 	_ = types.Typ
+}
+
+// c14ChunkEOF: io.EOF is how a page reader says "no more pages". The page
+// reader of a file takes the io.EOF of its byte stream for that only after
+// checking that the whole chunk was consumed: in (*FilePages).ReadPage every
+// returned error that comes from a read of the stream (header decode, page
+// body, decryption envelope) went through a function of the library that
+// compares the position with the size of the chunk's section, or that turns a
+// bare io.EOF into io.ErrUnexpectedEOF.
+func c14ChunkEOF(c *Ctx) {
+	rule := "C14.chunkeof"
+	p := c.P
+	obj := p.LookupFunc("(*FilePages).ReadPage")
+	if !c.Anchor(rule, "(*FilePages).ReadPage", obj != nil) {
+		return
+	}
+	fn := p.SSAFunc(obj)
+	io := NewIOErrs(p)
+	vets := func(g *ssa.Function) bool {
+		if g == nil || g.Blocks == nil || !inModule(g) {
+			return false
+		}
+		ok := false
+		allInstrs(g, false, func(_ *ssa.Function, ins ssa.Instruction) {
+			switch x := ins.(type) {
+			case ssa.CallInstruction:
+				if calleeName(x) == "io.(*SectionReader).Size" {
+					ok = true
+				}
+			case *ssa.UnOp:
+				if gl, isG := x.X.(*ssa.Global); isG && gl.Name() == "ErrUnexpectedEOF" {
+					ok = true
+				}
+			}
+		})
+		return ok
+	}
+	n := 0
+	var bad []string
+	for _, ret := range returnsOf(fn) {
+		rv, _ := retResult(ret, 1)
+		if rv == nil || isNilConst(rv) {
+			continue
+		}
+		for _, o := range Origins(rv, OriginOpts{}) {
+			if o.Kind != OrgCall {
+				continue
+			}
+			callee := o.Call.Common().StaticCallee()
+			// an error produced by a read of the stream, returned as is?
+			if !io.CallMayFail(o.Call) {
+				continue
+			}
+			n++
+			if callee != nil && vets(callee) {
+				continue
+			}
+			bad = append(bad, calleeName(o.Call)+" ("+p.Pos(o.Call.Pos())+")")
+		}
+	}
+	sort.Strings(bad)
+	c.Check(rule, "(*FilePages).ReadPage vets the io.EOF of its stream", fn.Pos(), len(bad) == 0 && n > 0, "(*FilePages).ReadPage returns the error of "+strings.Join(bad, ", ")+" as it is: when the source ends before the end of the column chunk its io.EOF is taken for the end of the pages and the remaining rows go missing without an error")
+	c.Stats[rule+".stream_errors_returned"] = n
 }
